@@ -122,7 +122,7 @@ def scenario(rng, findings=False):
     if has_coro:
         scn["driver"] = rng.choice(["sync", "inloop"])
     # "any object": listeners that are value-like (all compare and hash equal) or unhashable (a plain @dataclass)
-    scn["listener_kind"] = rng.choice(["attr", "attr", "equal", "unhashable"])
+    scn["listener_kind"] = rng.choice(["attr", "attr", "equal", "unhashable", "proxy"])
     return scn
 
 
@@ -200,5 +200,5 @@ def run(pid, tier, seed, replay):
                     "providers: shapes of the known findings", shards=2 if quick else 6, featurize=featurize)
     chk.coverage["rule"] = ("callback names distributed over machine/model/2 constructor listeners/2 late listeners, 35% of names cloned "
                             "onto further providers (guards with their own valuation), repeated add_listener, 1-2 instances of one class "
-                            "with different listeners, sync and async listener methods; listener objects plain, value-like (all equal) or unhashable")
+                            "with different listeners, sync and async listener methods; listener objects plain, value-like (all equal), unhashable, or forwarding proxies (__getattr__ + __dir__)")
     return chk.finish()
